@@ -293,6 +293,93 @@ impl Shape {
         }
     }
 
+    /// Joined-record matches with typos, cut short: one query word (no separator typed) covering two
+    /// title words, the second of which starts with an accented / expanding letter of the language.
+    fn joined_case(&self, cx: &mut Cx, lang: &'static str) {
+        let alpha = gen::lower_alphabet(lang);
+        let acc = oracle::accents(lang);
+        let exp = oracle::expanding_table(lang);
+        let mut starts: Vec<String> = vec![];
+        for a in &acc {
+            starts.push(a.composed.to_string());
+            starts.push(format!("{}{}", a.base, a.mark));
+        }
+        for e in &exp {
+            starts.push(e.0.to_string());
+        }
+        let w1 = gen::rand_word(&mut cx.rng, &alpha, 3, 12);
+        let head = if !starts.is_empty() && cx.rng.chance(3, 4) { cx.rng.pick(&starts).clone() } else { gen::rand_word(&mut cx.rng, &alpha, 1, 1) };
+        let w2 = format!("{}{}", head, gen::rand_word(&mut cx.rng, &alpha, 1, 11));
+        let sep = *cx.rng.pick(&[" ", " ", "-", ", ", " - ", ".", "\t"]);
+        let w0 = if cx.rng.chance(1, 3) { format!("{} ", gen::any_word(&mut cx.rng, lang)) } else { String::new() };
+        let title = format!("{}{}{}{}", w0, w1, sep, w2);
+        let st = St::build_sentinel(lang, &[(1, title.clone(), 3)], 10);
+        let tok = st.tok_record(&title);
+        if tok.words.len() < 2 {
+            return;
+        }
+        let n = tok.words.len();
+        let mut joined: Vec<char> = word_chars(&tok, n - 2).to_vec();
+        let l1 = joined.len();
+        joined.extend_from_slice(word_chars(&tok, n - 1));
+        for k in (l1 + 1)..=joined.len() {
+            for typos in 0..4 {
+                let mut q: Vec<char> = joined[..k].to_vec();
+                for _ in 0..typos {
+                    q = gen::rand_edit(&mut cx.rng, &q, &alpha);
+                }
+                let qs = s(&q);
+                cx.ctx(format!("joined lang={} title={:?} q={:?}", lang, title, qs));
+                let hits = st.search(&qs);
+                let tq = st.tok_query(&qs);
+                cx.eval();
+                cx.count("joined-with-typos queries");
+                for hit in &hits {
+                    match oracle::spans_of(&hit.1, &tok) {
+                        Err(e) => {
+                            if self.0 == Which::Markup {
+                                cx.fail("markup-unbalanced", json!({"lang": lang, "stored": title, "query": qs, "returned": hit.1, "error": e}));
+                            }
+                        }
+                        Ok(spans) => {
+                            if spans.len() >= 2 {
+                                cx.count("joined-with-typos hits with 2+ spans");
+                                cx.key(hparts(&[lang, &title, &qs, "joined"]));
+                                if typos > 0 {
+                                    cx.count("joined-with-typos hits with 2+ spans and typos");
+                                }
+                            }
+                            let stretch = if tq.words.is_empty() { 0 } else { tq.words[tq.words.len() - 1].slice.1 - tq.words[0].slice.0 };
+                            for (a, b) in &spans {
+                                match self.0 {
+                                    Which::Markup => {
+                                        match tok.words.iter().find(|w| w.slice.0 == *a) {
+                                            None => cx.fail("span-not-at-word-start", json!({"lang": lang, "stored": title, "query": qs, "returned": hit.1, "span": [a, b]})),
+                                            Some(w) => {
+                                                if *b > w.slice.1 {
+                                                    cx.fail("span-crosses-word-end", json!({"lang": lang, "stored": title, "query": qs, "returned": hit.1, "span": [a, b]}));
+                                                }
+                                            }
+                                        }
+                                    }
+                                    Which::Related => {
+                                        if b - a > stretch + 1 {
+                                            cx.fail("span-longer-than-typed", json!({"lang": lang, "stored": title, "query": qs, "returned": hit.1, "span": [a, b], "query_stretch": stretch}));
+                                        }
+                                    }
+                                    _ => {}
+                                }
+                            }
+                            if self.0 == Which::Markup && spans.is_empty() && oracle::has_alnum(&qs) {
+                                cx.fail("hit-without-highlight", json!({"lang": lang, "stored": title, "query": qs, "returned": hit.1}));
+                            }
+                        }
+                    }
+                }
+            }
+        }
+    }
+
     /// C05 (c): query = exact stable prefix of a one-word title -> highlight covers exactly the typed characters.
     fn exact_prefix_case(&self, cx: &mut Cx, lang: &'static str) {
         let words = gen::vocab(lang);
@@ -404,23 +491,24 @@ impl Prop for Shape {
     fn streams(&self) -> Vec<Stream> {
         match self.0 {
             Which::Titles => vec![Stream::new("stores", 16000, 800000), Stream::new("bridge", 3200, 160000)],
-            Which::Related => vec![Stream::new("stores", 16000, 800000), Stream::new("exact", 168, 8400)],
-            Which::Markup => vec![Stream::new("stores", 20000, 1000000)],
+            Which::Related => vec![Stream::new("stores", 16000, 800000), Stream::new("exact", 168, 8400), Stream::new("joined", 8000, 400000)],
+            Which::Markup => vec![Stream::new("stores", 20000, 1000000), Stream::new("joined", 16000, 800000)],
         }
     }
     fn floors(&self) -> Vec<(&'static str, u64, u64)> {
         match self.0 {
             Which::Titles => vec![("hit with span", 2000, 20000), ("hit whose title needed composition", 50, 500), ("hit with expanding letter", 50, 500), ("hit whose title has NUL", 30, 300), ("hit whose title contains marker text", 50, 500), ("bridge searches with hits", 200, 2000), ("empty-query searches", 100, 1000)],
             Which::Related => vec![("hit with fuzzy span", 200, 2000), ("hit with joined-record spans", 20, 200), ("exact-prefix case", 2000, 20000), ("exact-prefix ending inside an expanded letter", 5, 50)],
-            Which::Markup => vec![("hit with 2+ spans", 500, 5000), ("joined-record split (more spans than query words)", 20, 200), ("hit of separator-only query", 200, 2000), ("span in title with padding", 30, 300)],
+            Which::Markup => vec![("hit with 2+ spans", 500, 5000), ("joined-record split (more spans than query words)", 20, 200), ("hit of separator-only query", 200, 2000), ("span in title with padding", 30, 300), ("joined-with-typos hits with 2+ spans and typos", 2000, 100000)],
         }
     }
     fn run(&self, cx: &mut Cx, stream: &str, idx: u64) {
-        let lang = LANGS[(idx % 7) as usize];
+        let lang = LANGS[(idx % NL) as usize];
         match stream {
             "stores" => self.store_case(cx, lang),
             "exact" => self.exact_prefix_case(cx, lang),
             "bridge" => self.bridge_case(cx, lang),
+            "joined" => self.joined_case(cx, lang),
             _ => {}
         }
     }
